@@ -818,6 +818,7 @@ static void op_hmac(void)
     jint("canary", gcanary(&out) && gcanary(&k) && gcanary(&m) && ipok); jint("taint", vgerr); jint("inplace", inplace); jend();
     free(kc); free(mc); gfree(&k); gfree(&m); gfree(&out);
 }
+static gbuf hmkey[NOBJ];
 static void op_hminit(int re)
 {
     gbuf *o = getobj(hmacobj, "hmacstate", sizeof(tinyjambu_hmac_state_t));
@@ -831,7 +832,15 @@ static void op_hminit(int re)
     long vgerr = VG_ERRORS() - vg0;
     grw(&k);
     emit_obj(re ? "HmReinit" : "HmInit", o); jbytes("k", k.p, k.len); jint("kcanary", gcanary(&k)); jint("taint", vgerr); jend();
-    gfree(&k);
+    /* the caller reuses the key buffer for something else straight away (it stays mapped, with other contents, until the
+     * object's next init): the key is an argument of finalize again, nothing may be remembered by address */
+    {
+        long oi = kvi("obj", 0) & 7;
+        if (hmkey[oi].map) gfree(&hmkey[oi]);
+        if (k.len) memset(k.p, 0x6B, k.len);
+        hmkey[oi] = k;
+        for (int i = 0; i < nlive; i++) if (live[i] == &k) live[i] = &hmkey[oi];
+    }
 }
 static void op_hmupdate(void)
 {
@@ -1382,6 +1391,7 @@ static void op_reset(void)
         if (hmacobj[i].map) gfree(&hmacobj[i]);
         if (hkdfobj[i].map) gfree(&hkdfobj[i]);
         if (prngobj[i].map) gfree(&prngobj[i]);
+        if (hmkey[i].map) gfree(&hmkey[i]);
     }
     script_len = script_pos = 0; memset(inj_skipped, 0, sizeof(inj_skipped)); memset(hinj_skipped, 0, sizeof(int) * NOBJ);
     obj_fill = (int)kvi("fill", 0xAA);
